@@ -7,6 +7,7 @@ import ElysModel.Drv.Util
 import ElysModel.Amm.Swap
 import ElysModel.Amm.Liquidity
 import ElysModel.Amm.Oracle
+import ElysModel.Amm.SingleSided
 open Lean
 namespace Elys.Drv.Amm
 open Elys Elys.Amm
@@ -294,6 +295,97 @@ def handleLp (i : Nat) (j : Json) : List Json :=
     if vs.isEmpty then [verdictOk i] else vs
   | _, _, _, _ => [verdictBad i "c05.case fields"]
 
+/-- non-oracle single-asset join. -/
+def handleSingleJoin (i : Nat) (j : Json) : List Json :=
+  match fInts? j "bals", fInts? j "ws", fInt? j "totalW", fInt? j "S", fInt? j "i", fInt? j "amt", fInt? j "fee", fStr? j "res" with
+  | some bals, some ws, some totalW, some sTot, some idx, some amt, some fee, some res =>
+    let m := singleJoin bals ws totalW sTot idx.toNat amt fee
+    let iMinted := (fInt? j "minted").getD 0
+    let diffs : List Json :=
+      if kind m != res then [verdictDiff i "result" (Json.str (errStr m)) (Json.str res)]
+      else match m with
+        | .ok (sh, slip, nb, ns) =>
+          cmpInt i "minted" sh iMinted ++ cmpInt i "slippage" slip ((fInt? j "slip").getD 0) ++
+          cmpList i "newBals" nb ((fInts? j "newBals").getD []) ++ cmpInt i "newS" ns ((fInt? j "newS").getD 0)
+        | .error _ => []
+    -- minted ≤ S·((1 + a'/B)^w − 1) + 10^-8·(S + minted) + S/(2·10^18) + 2   (ref = ⌊exact·10^18⌋; PowSpec-style allowance)
+    let viols : List Json :=
+      match fInt? j "ref" with
+      | some ref =>
+        if res == "ok" ∧ 0 ≤ fee ∧ fee ≤ twoPct ∧
+            ¬ (iMinted * P * (2 * tenP8) ≤ (ref + 1) * (2 * tenP8) + 2 * (sTot + iMinted) * P + sTot * tenP8 + 4 * P * tenP8) then
+          [verdictViol i "C05.single_join_within_1e8" (Json.mkObj [("minted", mkInt iMinted), ("refRaw", mkInt ref), ("S", mkInt sTot)])]
+        else []
+      | none => []
+    let vs := diffs ++ viols
+    if vs.isEmpty then [verdictOk i] else vs
+  | _, _, _, _, _, _, _, _ => [verdictBad i "c05.case sjoin fields"]
+
+/-- oracle pool single-sided join / exit. -/
+def handleOracleLp (i : Nat) (j : Json) (fn : String) : List Json :=
+  match parseOAsset (fld j "a0"), parseOAsset (fld j "a1"), fInt? j "S", fInt? j "i", fInt? j "amt", fInts? j "params", fStr? j "res" with
+  | some a0, some a1, some sTot, some idx, some amt, some [ex, mu, po, th, pf], some res =>
+    let p : OPool := { a0 := a0, a1 := a1 }
+    let pr : OParams := { exponent := ex, multiplier := mu, portion := po, threshold := th, perpFactor := pf }
+    let ii := idx.toNat
+    let iNewBals := (fInts? j "newBals").getD []
+    let iNewS := (fInt? j "newS").getD 0
+    let iBonus := (fInt? j "bonus").getD 0
+    let ax := p.get ii
+    let sane := 0 ≤ mu ∧ ax.price > 0 ∧ sTot > 0 ∧ amt ≥ 0
+    if fn == "ojoin" then
+      let m := oJoin p sTot ii amt pr
+      let iMinted := (fInt? j "minted").getD 0
+      let diffs : List Json :=
+        if kind m != res then [verdictDiff i "result" (Json.str (errStr m)) (Json.str res)]
+        else match m with
+          | .ok r => cmpInt i "minted" r.shares iMinted ++ cmpInt i "bonus" r.bonus iBonus ++ cmpList i "newBals" r.newBals iNewBals ++ cmpInt i "newS" r.newS iNewS
+          | .error _ => []
+      -- shares minted are worth at most the deposit at the pool's TVL, up to the RoundInt half unit:
+      -- minted·tvl ≤ S·joinValue + tvl·(1/2 + 10^-18)
+      let viols : List Json :=
+        match tvl [a0, a1] with
+        | .ok t =>
+          if res == "ok" ∧ sane ∧ ¬ (2 * P * iMinted * t ≤ 2 * P * sTot * (amt * ax.price) + t * (P + 2)) then
+            [verdictViol i "C05.oracle_join_value" (Json.mkObj [("minted", mkInt iMinted), ("S", mkInt sTot), ("tvl", mkInt t), ("amt", mkInt amt), ("price", mkInt ax.price)])]
+          else []
+        | .error _ => []
+      let vs := diffs ++ viols
+      if vs.isEmpty then [verdictOk i] else vs
+    else
+      let m := oExit p sTot ii amt pr
+      let iOut := (fInt? j "out").getD 0
+      let diffs : List Json :=
+        if kind m != res then [verdictDiff i "result" (Json.str (errStr m)) (Json.str res)]
+        else match m with
+          | .ok r => cmpInt i "out" r.out iOut ++ cmpInt i "bonus" r.bonus iBonus ++ cmpList i "newBals" r.newBals iNewBals ++ cmpInt i "newS" r.newS iNewS
+          | .error _ => []
+      let viols : List Json :=
+        if res != "ok" ∨ ¬ sane ∨ amt ≤ 0 then [] else
+        -- the payout is worth at most the exiting shares' claim on the TVL, up to the rounding allowance:
+        -- out·price ≤ x·tvl/S + 1/2 + price·(1/2 + 10^-18)
+        (match tvl [a0, a1] with
+        | .ok t =>
+          if ¬ (2 * P * iOut * ax.price * sTot ≤ 2 * P * amt * t + P * sTot + ax.price * sTot * (P + 2)) then
+            [verdictViol i "C05.oracle_exit_value" (Json.mkObj [("out", mkInt iOut), ("x", mkInt amt), ("S", mkInt sTot), ("tvl", mkInt t), ("price", mkInt ax.price)])]
+          else []
+        | .error _ => []) ++
+        -- never empty: the payout stays below the BOOK balance, and the book follows the payout
+        (if iOut < ax.amount ∧ amt < sTot ∧ iNewBals.getD ii 0 = ax.amount - iOut then [] else
+          [verdictViol i "C05.oracle_exit_never_empty" (Json.mkObj [("out", mkInt iOut), ("bookBalance", mkInt ax.amount),
+            ("newBookBalance", mkInt (iNewBals.getD ii 0)), ("outEqualsBalance", jb (iOut = ax.amount)),
+            ("bookUnchanged", jb (iNewBals.getD ii 0 = ax.amount))])])
+      let vs := diffs ++ viols
+      if vs.isEmpty then [verdictOk i] else vs
+  | _, _, _, _, _, _, _ => [verdictBad i "c05.case oracle fields"]
+
+def handleC05 (i : Nat) (j : Json) : List Json :=
+  match fStr? j "fn" with
+  | some "sjoin" => handleSingleJoin i j
+  | some "ojoin" => handleOracleLp i j "ojoin"
+  | some "oexit" => handleOracleLp i j "oexit"
+  | _ => handleLp i j
+
 def handle (s : S) (i : Nat) (j : Json) : S × List Json :=
   match fStr? j "t" with
   | some "c03.case" =>
@@ -304,7 +396,7 @@ def handle (s : S) (i : Nat) (j : Json) : S × List Json :=
     | some "oout" => (s, handleOracle i j "oout")
     | some "oin" => (s, handleOracle i j "oin")
     | _ => (s, [verdictBad i "c03.case fn"])
-  | some "c05.case" => (s, handleLp i j)
+  | some "c05.case" => (s, handleC05 i j)
   | some "stats" => (s, [])
   | _ => (s, [verdictBad i "unknown t"])
 
